@@ -328,6 +328,13 @@ def correspondence(R, ctx):
             pts = [p for p in pts if Fr(float(p)) == p and Fr(float(p) - a) == p - Fr(a)]
             if len(pts) > 40:
                 pts = rng.sample(pts, 40)
+            if a == 0.0 and (n - 1) & (n - 2) == 0:
+                # the doubles next to an exact tie of the grid parameter (exactly representable: a = 0, b and n - 1 powers of two)
+                for k in [0, 1, 2, n - 2]:
+                    for t in (np.nextafter(k + 0.5, -np.inf), np.nextafter(k + 0.5, np.inf)):
+                        pts.append(Fr(float(t)) * Fr(b) / (n - 1))
+                pts = [p for p in pts if Fr(float(p)) == p]
+                dist['near_ties'] = dist.get('near_ties', 0) + 8
             if not pts:
                 continue
             X = [float(p) for p in pts]
@@ -1068,6 +1075,39 @@ def o_scale18(tn, a, b, n, kind, p2, idx, ts):
     return None
 
 
+def o_ties18(tn, p2, q2, ks):
+    """uniform grid, box [0, 2^p2], n - 1 = 2^q2: a point x = t * 2^(p2 - q2) has the grid parameter t EXACTLY (every
+    operation of poi_to_ind is exact).  For t = k + 1/2 (an exact tie) the index must be one of the two nearest nodes k,
+    k + 1; for the doubles next to the tie the strictly nearer node; boundaries (t = -1/2 -> 0, t = n - 1/2 -> n - 1);
+    single point = element of a batch."""
+    b, n = math.ldexp(1.0, p2), 2 ** q2 + 1
+    ts, want = [], []
+    for k in ks:
+        tie = k + 0.5
+        lo, hi = float(np.nextafter(tie, -np.inf)), float(np.nextafter(tie, np.inf))
+        ts += [tie, lo, hi]
+        want += [(k, k + 1), (k, k), (k + 1, k + 1)]
+    ts += [-0.5, -0.25, float(np.nextafter(0.5, 0)) - 1.0, n - 0.5, n - 0.75, float(n)]
+    want += [(0, 0)] * 3 + [(n - 1, n - 1)] * 3
+    xs = [math.ldexp(t, p2 - q2) for t in ts]
+    if any(math.ldexp(x, q2 - p2) != t for x, t in zip(xs, ts)):
+        return None
+    got = np.asarray(tn.poi_to_ind(np.array(xs), 0.0, b, n, 'uni')).tolist()
+    for t, x, g, w in zip(ts, xs, got, want):
+        w = tuple(min(max(v, 0), n - 1) for v in w)
+        if g not in w:
+            return dict(what=f'poi_to_ind(uni): the point with grid parameter exactly {t!r} goes to index {g}, nearest '
+                             f'node{"s" if w[0] != w[1] else ""}: {sorted(set(w))}', point=x, got=g, expected=sorted(set(w)),
+                        box=[0.0, b], n=n)
+    for j in (0, 1, 2, len(xs) - 3):
+        one = np.asarray(tn.poi_to_ind([xs[j]], 0.0, b, n, 'uni')).tolist()
+        two = np.asarray(tn.poi_to_ind(np.array([[xs[j]], [xs[j]]]), [0.0], [b], [n], 'uni')).tolist()
+        if one != [got[j]] or two != [[got[j]], [got[j]]]:
+            return dict(what='poi_to_ind(uni): a tie / near-tie point gets different indices as single point, in a vector '
+                             'and in a batch', point=xs[j], got=[one, two], expected=got[j])
+    return None
+
+
 def o_bign(tn, a, b, n, kind, idx):
     """very large grids (n up to 2^20 + 1) and n = 2 on selected indices: end points, in-box, reference nodes, round trip,
     boundary / outside points, single = element of a batch"""
@@ -1096,7 +1136,7 @@ def o_bign(tn, a, b, n, kind, idx):
     return None
 
 
-ORACLES = dict(pow2=o_scale18, bign=o_bign, history=o_history, grid=o_grid, points=o_points, scale=o_scale, batch=o_batch, bcast=o_bcast, flat=o_flat,
+ORACLES = dict(ties=o_ties18, pow2=o_scale18, bign=o_bign, history=o_history, grid=o_grid, points=o_points, scale=o_scale, batch=o_batch, bcast=o_bcast, flat=o_flat,
                reject=o_reject, cdf=o_cdf)
 
 
@@ -1226,6 +1266,12 @@ def search(R, ctx, deep, hints):
         idx = [rng.randrange(n) for _ in range(5)] + [0, n - 1]
         ts = [rng.uniform(-0.3, 1.3) for _ in range(6)] + [0.0, 1.0]
         _run(tn, 'pow2', (a, b, n, kind, p2, idx, ts), fails, cnt)
+    # 4d. exact ties of the rounding step and the doubles next to them (both parities of k, k = 0, boundaries)
+    for p2 in [0, 3, -7, 40, -40, 500, -500]:
+        for q2 in [1, 2, 4, 10, 20]:
+            ks = sorted({0, 1, 2, 3, 2 ** q2 - 2, 2 ** q2 - 1} & set(range(2 ** q2))) + \
+                [rng.randrange(2 ** q2) for _ in range(4)]
+            _run(tn, 'ties', (p2, q2, ks), fails, cnt)
     # 5. grid_flat
     shapes = [[1], [2], [5], [1, 1], [2, 3], [3, 2], [4, 1, 2], [2, 2, 2, 2], [3, 4, 5], [1, 2, 3, 4]]
     for _ in range(30 if deep else 8):
